@@ -173,7 +173,7 @@ PROPS["C12"] = [("kani", "ov_pipes", ["push::", "pull::send_push", "pull::send_s
 
 PROPS["C14"] = [("kani", "ov_sink", ["vk_harness"], ("quick", "thorough"))]
 
-PROPS["C16"] = [("kani", "vk_mpsc", ["mpsc::harness"], ("quick", "thorough"))]
+# C16 NOT registered (tool limit, DESIGN.md section 11): vk_mpsc kept for the record
 
 PROPS["C13"] = [("kani", "ov_pipes", ["symmetric_hash_join"], ("quick", "thorough"))]
 
@@ -182,5 +182,5 @@ PROPS["C13"] = [("kani", "ov_pipes", ["symmetric_hash_join"], ("quick", "thoroug
 PROPS["C10"] = [("kani", "vk_var", ["harness::"], ("quick", "thorough"))]
 
 LEVEL = {
-    "C01": "other", "C02": "other", "C03": "other", "C04": "other", "C09": "other", "C15": "other", "C11": "other", "C12": "other", "C14": "other", "C16": "other", "C13": "other", "C10": "other",
+    "C01": "other", "C02": "other", "C03": "other", "C04": "other", "C09": "other", "C15": "other", "C11": "other", "C12": "other", "C14": "other", "C13": "other", "C10": "other",
 }
